@@ -29,7 +29,7 @@ type matcher struct {
 	V  string `json:"v"`
 }
 type qspec struct {
-	Kind string    `json:"kind"` // sel | agg | arith | nest
+	Kind string    `json:"kind"` // sel | agg | arith | nest | form
 	Fn   string    `json:"fn,omitempty"`
 	Grp  string    `json:"grp,omitempty"` // "" | by | without
 	GL   []string  `json:"gl,omitempty"`
@@ -43,6 +43,13 @@ type qspec struct {
 	In  *qspec `json:"in,omitempty"`
 	InQ int    `json:"inq,omitempty"`
 	Aux bool   `json:"aux,omitempty"` // inner aggregation asked on its own (full window only)
+	// formula (kind form): a tree of binary operations over the operand queries Ops and number literals, asked through
+	// API "formula" (queries + formulas request of the metrics explorer) or "promql" (the expanded expression through the
+	// Prometheus endpoints' call sequence); Twin = index of the same expression through the other API
+	Ops  []qspec `json:"ops,omitempty"`
+	Tree *fnode  `json:"tree,omitempty"`
+	API  string  `json:"api,omitempty"`
+	Twin int     `json:"twin,omitempty"`
 	Fam  int       `json:"fam"`             // family id (same selector and grouping, all five functions), -1 = none
 	Kn   string    `json:"known,omitempty"` // known-defect class this query was generated for ("" = main stream)
 	// time range of the query: [t0+Lo, t0+Hi], both ends inclusive; Hi == 0 means the full window [0, window].
@@ -58,15 +65,21 @@ func (q qspec) win() (int, int) {
 	}
 	return q.Lo, q.Hi
 }
+func lo0(q qspec) int     { lo, _ := q.win(); return lo }
+func hi0(q qspec) int     { _, hi := q.win(); return hi }
 func (q qspec) narrow() bool { lo, hi := q.win(); return lo != 0 || hi != window }
 
 // text used in messages and replays
 func (q qspec) show() string {
+	txt := q.promql()
+	if q.Kind == "form" {
+		txt = q.formShow()
+	}
 	if !q.narrow() {
-		return q.promql()
+		return txt
 	}
 	lo, hi := q.win()
-	return fmt.Sprintf("%s over [+%d,+%d]", q.promql(), lo, hi)
+	return fmt.Sprintf("%s over [+%d,+%d]", txt, lo, hi)
 }
 
 func (q qspec) selector() string {
@@ -93,6 +106,8 @@ func (q qspec) promql() string {
 			return fmt.Sprintf("%s(%s)", q.Fn, q.In.promql())
 		}
 		return fmt.Sprintf("%s %s (%s) (%s)", q.Fn, q.Grp, strings.Join(q.GL, ","), q.In.promql())
+	case "form":
+		return q.expanded()
 	default:
 		return q.L.promql() + " " + q.Op + " " + q.R.promql()
 	}
@@ -397,6 +412,8 @@ func expectIn(q qspec, d dataset, maxPhase, lo, hi int) answer {
 			}
 		}
 		return answerOf(aggLayer(q.Fn, q.Grp, q.GL, aggLayer(q.In.Fn, q.In.Grp, q.In.GL, in)))
+	case "form":
+		return expectForm(q, d, maxPhase, lo, hi)
 	case "arith":
 		l, r := expectIn(*q.L, d, maxPhase, lo, hi), expectIn(*q.R, d, maxPhase, lo, hi)
 		strip := func(a answer) answer {
@@ -1086,6 +1103,15 @@ func genKnown(r *vhlib.Rng, which int) (dataset, []qspec) {
 		for _, op := range []string{"+", "*", "-"} {
 			qs = append(qs, qspec{Kind: "arith", Op: op, L: &l2, R: &rr, Fam: -1, Kn: "arith_missing_sample_as_zero"})
 		}
+		// the same pairing by id text: a selector's ids end in a comma ("m{a:x,b:y,"), a by-aggregation's do not ("m{a:x,b:y"),
+		// so a selector never pairs with an aggregation by all of its labels (both entry points)
+		gb := qspec{Kind: "agg", Fn: "sum", Grp: "by", GL: keys, Name: "m", Fam: -1}
+		for _, t := range []*fnode{{Op: "-", L: &fnode{Ref: 0}, R: &fnode{Ref: 1}, Ref: -1}, {Op: "+", L: &fnode{Ref: 1}, R: &fnode{Ref: 0}, Ref: -1}} {
+			f := qspec{Kind: "form", Ops: []qspec{l2, gb}, Tree: t, API: "formula", Fam: -1, Kn: "arith_label_order_mismatch", Twin: len(qs) + 1}
+			p := f
+			p.API, p.Twin = "promql", len(qs)
+			qs = append(qs, f, p)
+		}
 	}
 	genPoints(r, &d, false)
 	for i := range qs {
@@ -1101,7 +1127,7 @@ var knownKinds = map[string][]string{
 	"agg_group_key_substring":          {"agg_wrong_groups", "agg_wrong_value"},
 	"agg_without_all_labels":           {"agg_wrong_groups"},
 	"selector_duplicate_label_matcher": {"selector_wrong_series", "agg_wrong_value", "agg_wrong_groups"},
-	"arith_label_order_mismatch":       {"arith_wrong_series"},
+	"arith_label_order_mismatch":       {"arith_wrong_series", "formula_wrong_series", "formula_ne_promql_endpoint_answer"},
 	"arith_missing_sample_as_zero":     {"arith_wrong_value", "arith_wrong_series"}, // a pair without any common timestamp still yields a series
 }
 
@@ -1182,6 +1208,7 @@ type job struct {
 	idx   int
 	known bool
 	arith bool
+	form  bool
 	d     dataset
 	qs    []qspec
 	split []stageObs // run with the rotation between phase 0 and phase 1
@@ -1229,16 +1256,43 @@ func main() {
 			jobs = append(jobs, &job{idx: len(jobs), known: true, d: d, qs: qs})
 		}
 	}
+	// formulas through the formula API and through the PromQL endpoints (own generator stream, after the others)
+	formRng := r.Fork()
+	nForm := 8
+	if cfg.Thorough() {
+		nForm = 120
+	}
+	for i := 0; i < nForm; i++ {
+		d, qs := genFormulaDS(formRng.Fork())
+		jobs = append(jobs, &job{idx: len(jobs), form: true, d: d, qs: qs})
+	}
 
+	// C09_ONLY=formula / C09_ONLY=noformula: run only (or leave out) the formula stream (exploration and timing; not used by ./check)
+	if only := os.Getenv("C09_ONLY"); only != "" {
+		var keep []*job
+		for _, j := range jobs {
+			if (only == "formula") == j.form {
+				j.idx = len(keep)
+				keep = append(keep, j)
+			}
+		}
+		jobs = keep
+	}
 	// run the real implementation (one worker process per store), a few at a time
 	root := filepath.Join(cfg.Out, "runs")
 	var wg sync.WaitGroup
-	sem := make(chan struct{}, 6)
+	sem := make(chan struct{}, 10)
 	for _, j := range jobs {
-		for _, q := range j.qs {
+		for qi, q := range j.qs {
 			j.d.Queries = append(j.d.Queries, q.promql())
 			lo, hi := q.win()
 			j.d.Wins = append(j.d.Wins, [2]int{lo, hi})
+			if q.Kind == "form" && q.API == "formula" {
+				if j.d.Forms == nil {
+					j.d.Forms = map[int]formReq{}
+				}
+				j.d.Forms[qi] = q.formReq()
+			}
 		}
 		wg.Add(1)
 		go func(j *job) {
@@ -1270,7 +1324,7 @@ func main() {
 			return
 		}
 		sum.WriteCaseFile(filepath.Join(cfg.Out, "cases"), fmt.Sprintf("c09_%03d", fileNo),
-			"From SigM Require Import Base Promql PromqlCheck.\nFrom Coq Require Import QArith.\n",
+			"From SigM Require Import Base Promql PromqlFormula PromqlCheck.\nFrom Coq Require Import QArith.\n",
 			defs.String(), strings.Join(exprs, "\n  ++ "), ncases)
 		defs.Reset()
 		exprs = nil
@@ -1285,10 +1339,12 @@ func main() {
 			stream = "known"
 		} else if j.arith {
 			stream = "main_arith"
+		} else if j.form {
+			stream = "formula"
 		}
 		caseOf := func(qi int, stage string) map[string]interface{} {
 			lo, hi := j.qs[qi].win()
-			return map[string]interface{}{"dataset": j.d, "query": j.qs[qi].promql(), "query_index": qi, "range": [2]int{lo, hi}, "stage": stage,
+			return map[string]interface{}{"dataset": j.d, "query": j.qs[qi].show(), "query_index": qi, "range": [2]int{lo, hi}, "stage": stage,
 				"replay": "save the dataset object as d.json (its queries / wins fields list all queries of the run and their time ranges [t0+lo, t0+hi]) and run: work/bin/c09 probe d.json"}
 		}
 		if j.err != "" {
@@ -1315,6 +1371,7 @@ func main() {
 			{"whole_open", stageOf(j.whole, "open"), 1, false}, {"whole_rotated", stageOf(j.whole, "rotated"), 1, false},
 		}
 		canon := map[string][]answer{}
+		formDeviates := map[string]bool{} // stage/query: the formula is designed to answer differently from PromQL here
 		for _, st := range stages {
 			if st.obs == nil || len(st.obs.Q) != len(j.qs) {
 				sum.HarnessError(fmt.Sprintf("dataset %d: stage %s missing", j.idx, st.name))
@@ -1356,6 +1413,41 @@ func main() {
 						sum.Count("nest_selector/with_matcher")
 					}
 				}
+				if q.Kind == "form" {
+					kind = "form/" + q.API
+					if q.API == "formula" {
+						sum.Count(fmt.Sprintf("formula/nesting_depth_%d", q.Tree.depth()))
+						texts, repeated, multi := map[string]int{}, false, 0
+						ops := q.operandAnswers(j.d, st.maxPhase, lo0(q), hi0(q))
+						for _, i := range q.Tree.refs() {
+							texts[q.Ops[i].promql()]++
+							repeated = repeated || texts[q.Ops[i].promql()] > 1
+							if len(ops[i]) > 1 {
+								multi++
+							}
+						}
+						if repeated {
+							sum.Count("formula/operand_text_repeated")
+						} else if len(q.Tree.refs()) > 1 {
+							sum.Count("formula/operands_distinct")
+						}
+						sum.Count(fmt.Sprintf("formula/multi_series_operand_positions_%d", min(multi, 3)))
+						if repeated && multi > 1 && len(texts) == 1 {
+							sum.Count("formula/one_multi_series_text_at_several_positions")
+						}
+						if q.Tree.vecVecNodes() < q.Tree.depth() || (q.Tree.Op != "" && (q.Tree.L.IsNum || q.Tree.R.IsNum)) {
+							sum.Count("formula/with_number_literal")
+						}
+						for i, o := range q.Ops {
+							if len(ops[i]) == 1 {
+								sum.Count("formula/operand_with_one_series")
+							}
+							if o.Kind == "agg" {
+								sum.Count("formula/aggregation_operand")
+							}
+						}
+					}
+				}
 				sum.Count("query/" + kind)
 				if q.narrow() {
 					sum.Count("range/narrow")
@@ -1377,21 +1469,45 @@ func main() {
 					}
 					sum.Fail(cls, fmt.Sprintf("%s at stage %s: %s", q.show(), st.name, detail), caseOf(qi, st.name))
 				}
-				pre := map[string]string{"sel": "selector", "agg": "agg", "arith": "arith", "nest": "nested_agg"}[q.Kind]
+				pre := map[string]string{"sel": "selector", "agg": "agg", "arith": "arith", "nest": "nested_agg", "form": "arith"}[q.Kind]
+				if q.Kind == "form" && q.API == "formula" {
+					pre = "formula"
+				}
+				wrongSeries := map[string]string{"sel": "selector_wrong_series", "agg": "agg_wrong_groups", "arith": "arith_wrong_series", "nest": "nested_agg_wrong_groups", "form": pre + "_wrong_series"}[q.Kind]
+				wrongValue := map[string]string{"sel": "selector_wrong_samples", "agg": "agg_wrong_value", "arith": "arith_wrong_value", "nest": "nested_agg_wrong_value", "form": pre + "_wrong_value"}[q.Kind]
+				// formulas: what the code is designed to answer where that is not the PromQL answer (known classes)
+				var designed answer
+				designedFails, lonePairings := false, 0
+				if q.Kind == "form" {
+					designed, designedFails, lonePairings = designedForm(q, j.d, st.maxPhase, lo0(q), hi0(q))
+					if o.Scalar != nil {
+						probs = append(probs, fmt.Sprintf("scalar answer %g for a vector expression", *o.Scalar))
+					}
+				}
+				if designedFails {
+					sum.Count("formula/nested_operation_with_empty_result")
+				}
 				if len(o.Errs) > 0 {
-					fail(pre+"_query_error", strings.Join(o.Errs, "; "))
+					// (fixed by 962cee9; a regression is reported under the class of the repaired finding)
+					if designedFails && strings.Contains(strings.Join(o.Errs, "; "), "result is empty and scalarValuePtr is nil") {
+						fail("arith_nested_empty_operand_is_error", fmt.Sprintf("PromQL answer %s, the request failed: %s", showAnswer(want, j.d.T0), strings.Join(o.Errs, "; ")))
+					} else {
+						fail(pre+"_query_error", strings.Join(o.Errs, "; "))
+					}
 					continue
 				}
 				if len(probs) > 0 {
-					fail(map[string]string{"sel": "selector_wrong_series", "agg": "agg_wrong_groups", "arith": "arith_wrong_series", "nest": "nested_agg_wrong_groups"}[q.Kind], strings.Join(probs, "; "))
+					fail(wrongSeries, strings.Join(probs, "; "))
 					continue
 				}
+				formDeviates[fmt.Sprintf("%s/%d", st.name, qi)] = q.Kind == "form" && !sameAnswer(designed, want)
 				// the time range: no reported sample lies outside it ...
 				if lo, hi := q.win(); !sameAnswer(got, restrict(got, j.d.T0, lo, hi)) {
 					fail("sample_outside_query_range", fmt.Sprintf("range [+%d,+%d], returned %s", lo, hi, showAnswer(got, j.d.T0)))
 				}
 				// ... and the answer is the implementation's own full-window answer restricted to the range
-				if q.Full >= 0 && q.Kn == "" && len(st.obs.Q[q.Full].Errs) == 0 {
+				if q.Full >= 0 && q.Kn == "" && len(st.obs.Q[q.Full].Errs) == 0 &&
+					!formDeviates[fmt.Sprintf("%s/%d", st.name, qi)] && !formDeviates[fmt.Sprintf("%s/%d", st.name, q.Full)] {
 					lo, hi := q.win()
 					if full := restrict(canon[st.name][q.Full], j.d.T0, lo, hi); !sameAnswer(got, full) {
 						fail("range_answer_not_restriction_of_full_answer", fmt.Sprintf("the answer over the full window, restricted to the range, is %s; the query over the range returned %s",
@@ -1417,12 +1533,20 @@ func main() {
 						}
 					}
 				}
-				if !sameKeys(want, got) {
-					fail(map[string]string{"sel": "selector_wrong_series", "agg": "agg_wrong_groups", "arith": "arith_wrong_series", "nest": "nested_agg_wrong_groups"}[q.Kind],
-						fmt.Sprintf("PromQL answer %s, returned %s", showAnswer(want, j.d.T0), showAnswer(got, j.d.T0)))
+				// a formula through the formula API answers like the expanded expression through the PromQL endpoints
+				// (wherever the formula API is not designed to leave PromQL)
+				if q.Kind == "form" && q.API == "formula" && !formDeviates[fmt.Sprintf("%s/%d", st.name, qi)] && len(st.obs.Q[q.Twin].Errs) == 0 {
+					if tw, tp := canonObs(j.qs[q.Twin], st.obs.Q[q.Twin]); len(tp) == 0 && !sameAnswer(tw, got) {
+						fail("formula_ne_promql_endpoint_answer", fmt.Sprintf("the expanded expression %s through the PromQL endpoints returns %s; the formula API returned %s",
+							q.expanded(), showAnswer(tw, j.d.T0), showAnswer(got, j.d.T0)))
+					}
+				}
+				if !sameAnswer(want, got) && q.Kind == "form" && q.API == "formula" && lonePairings > 0 && sameAnswer(designed, got) {
+					fail("formula_lone_series_operand_ignores_labels", fmt.Sprintf("PromQL answer %s, returned %s", showAnswer(want, j.d.T0), showAnswer(got, j.d.T0)))
+				} else if !sameKeys(want, got) {
+					fail(wrongSeries, fmt.Sprintf("PromQL answer %s, returned %s", showAnswer(want, j.d.T0), showAnswer(got, j.d.T0)))
 				} else if !sameAnswer(want, got) {
-					fail(map[string]string{"sel": "selector_wrong_samples", "agg": "agg_wrong_value", "arith": "arith_wrong_value", "nest": "nested_agg_wrong_value"}[q.Kind],
-						fmt.Sprintf("PromQL answer %s, returned %s", showAnswer(want, j.d.T0), showAnswer(got, j.d.T0)))
+					fail(wrongValue, fmt.Sprintf("PromQL answer %s, returned %s", showAnswer(want, j.d.T0), showAnswer(got, j.d.T0)))
 				}
 			}
 			// relations between the five aggregations of one family, on the implementation's own answers
@@ -1475,20 +1599,47 @@ func main() {
 		fmt.Fprintf(&defs, "Definition db%d_b : list series := %s.\n", j.idx, coqDB(j.d, true, 1))
 		fmt.Fprintf(&defs, "Definition db%d_c : list series := %s.\n", j.idx, coqDB(j.d, false, 1))
 		for qi, q := range j.qs {
+			if q.Kind == "form" {
+				fmt.Fprintf(&defs, "Definition q%d_%d : ftree := %s.\n", j.idx, qi, q.coqTree(q.Tree))
+				continue
+			}
 			fmt.Fprintf(&defs, "Definition q%d_%d : qcase := %s.\n", j.idx, qi, q.coqCase())
 		}
 		for si, st := range stages {
 			if st.obs == nil || len(st.obs.Q) != len(j.qs) {
 				continue
 			}
-			var items []string
-			for qi := range j.qs {
-				lo, hi := j.qs[qi].win()
-				items = append(items, fmt.Sprintf("((%d, %d)%%Z, q%d_%d, %s)", lo, hi, j.idx, qi, coqObs(st.obs.Q[qi], j.d.T0)))
-			}
-			fmt.Fprintf(&defs, "Definition cs%d_%d : list ((Z * Z) * qcase * obs) := %s.\n", j.idx, si, vhlib.CoqListNL(items))
+			// maximal runs of plain cases / formula cases, each with the index of its first query
 			db := map[int]string{0: "a", 1: "a", 2: "b", 3: "b", 4: "c", 5: "c"}[si]
-			exprs = append(exprs, fmt.Sprintf("check_cases_w db%d_%s cs%d_%d %d", j.idx, db, j.idx, si, j.idx*10000+si*1000))
+			var items []string
+			runStart, runForm := 0, false
+			flushRun := func(end int) {
+				if len(items) == 0 {
+					return
+				}
+				if runForm {
+					fmt.Fprintf(&defs, "Definition fs%d_%d_%d : list ((Z * Z) * bool * ftree * fobs) := %s.\n", j.idx, si, runStart, vhlib.CoqListNL(items))
+					exprs = append(exprs, fmt.Sprintf("check_formulas_w db%d_%s fs%d_%d_%d %d", j.idx, db, j.idx, si, runStart, j.idx*10000+si*1000+runStart))
+				} else {
+					fmt.Fprintf(&defs, "Definition cs%d_%d_%d : list ((Z * Z) * qcase * obs) := %s.\n", j.idx, si, runStart, vhlib.CoqListNL(items))
+					exprs = append(exprs, fmt.Sprintf("check_cases_w db%d_%s cs%d_%d_%d %d", j.idx, db, j.idx, si, runStart, j.idx*10000+si*1000+runStart))
+				}
+				items = nil
+			}
+			for qi := range j.qs {
+				isForm := j.qs[qi].Kind == "form"
+				if isForm != runForm {
+					flushRun(qi)
+					runStart, runForm = qi, isForm
+				}
+				lo, hi := j.qs[qi].win()
+				if isForm {
+					items = append(items, fmt.Sprintf("((%d, %d)%%Z, %v, q%d_%d, %s)", lo, hi, j.qs[qi].API == "formula", j.idx, qi, coqFormObs(st.obs.Q[qi], j.d.T0)))
+				} else {
+					items = append(items, fmt.Sprintf("((%d, %d)%%Z, q%d_%d, %s)", lo, hi, j.idx, qi, coqObs(st.obs.Q[qi], j.d.T0)))
+				}
+			}
+			flushRun(len(j.qs))
 			ncases += len(j.qs)
 		}
 		if ncases >= 450 {
@@ -1502,6 +1653,7 @@ func main() {
 		"nested aggregations fn2 g2 (fn1 g1 (selector)): one family (all five outer functions) and three single queries per dataset, clauses naming the same / nested / overlapping / disjoint labels or a label twice, by and without mixed, selectors with and without matchers; PromQL answer = outer aggregation of the inner aggregation's vector; also compared with the outer aggregation of the implementation's own answer to the inner query asked alone",
 		"time ranges: every query over the full window [t0, t0+300]; every plain selector and about half of the other queries a second time over a narrow range whose ends lie on / next to datapoint timestamps (datapoints before, inside and after the range, ingested in shuffled order)",
 		"model comparison: exact series-id byte strings (label order included) and exact sample values, for every stage (open, rotated, open+rotated, two rotated segments, unsplit)",
+		"formulas (stream formula): trees of + - * / over one to three operand queries (selectors with several series, a selector with one series, aggregations with and without by-clause) and number literals, operands repeated under one name and under two names, nested up to three levels; every formula is asked through the formula API (queries + formulas request, ProcessMetricsQueryRequest) and as the expanded expression through the PromQL endpoints' call sequence, over the full window and narrow ranges; oracle = PromQL answer of the expanded expression for both, and equality of the two answers",
 		"case index = dataset*10000 + stage*1000 + query")
 	sum.Write(cfg.Out)
 	_ = os.RemoveAll(root)
